@@ -9,7 +9,8 @@ import common
 import container as C
 from sx import Sym
 
-RULE = ("all target kinds (absent; existing TDF; existing non-TDF; existing empty file; directory) x {Tdf.new, Tdf.copy, Tdf()+enter}; "
+RULE = ("[plus long-lived objects: 3-8 step scripts of construct / explicit enter / reader with implicit context / the file under the path "
+        "replaced by TDF, junk, damaged signature, nothing, a directory, or deleted] all target kinds (absent; existing TDF; existing non-TDF; existing empty file; directory) x {Tdf.new, Tdf.copy, Tdf()+enter}; "
         "copy sources reached by seeded mutation histories; later mutations applied to the copy or to the original with the other "
         "file's bytes compared before/after; observed: exception class, bytes of every pre-existing target before/after, independent "
         "parse of new files (Lean wfB/compactB + equality with the model's image); non-trivial = scenario with an existing target or a "
@@ -153,6 +154,7 @@ def run(ctx):
                     ctx.fail("opening changed the target", rep, ident="open changes file")
         finally:
             shutil.rmtree(d, ignore_errors=True)
+    long_lived(ctx)
     for (got, after, srcafter, rep), m in zip(expected, common.drv_batch(model_cmds)):
         m_out = str(m[0])
         canon = {"isDir": "invalid"}        # how a directory is refused on open is OS detail; only "refused" matters
@@ -162,6 +164,126 @@ def run(ctx):
         m_after = None if m[1] == "absent" else ("dir" if m[1] == "dir" else m[1])
         if m_after != after:
             ctx.diff("fs.bytes", f"{rep['op']} on {rep['target_kind']}: target after the call differs from the model", rep)
+
+
+def long_lived(ctx):
+    """objects that live across several contexts while the file under their path is replaced, deleted or recreated by
+    someone else: every entry — explicit `with`, or the implicit context of a reader — must judge the file as it is NOW"""
+    from basictdf import Tdf
+    rng = ctx.rng
+    # readers that cannot raise on a valid file (a getter of an absent block raises legitimately and would prove nothing)
+    # (len(t) is not among them: it never opens the file, it counts the table remembered from the last context)
+    readers = [("has_events", lambda t: t.has_events), ("has_emg", lambda t: t.has_emg),
+               ("has_data3D", lambda t: t.has_data3D), ("repr", lambda t: repr(t))]
+    cmds, recs = [], []
+    for k in range(ctx.n(120, 1500)):
+        d = tempfile.mkdtemp(prefix="vtdf")
+        try:
+            p = os.path.join(d, "f.tdf")
+            objs, ops, obs = {}, [], []
+            good, _ = C.start_file(rng, rng.choice(["fresh", "n3", "n14"]))
+            kind0 = rng.choice(["tdf", "tdf", "tdf", "nontdf", "empty", "absent"])
+            nodes = []
+            if kind0 != "absent":
+                data0 = good if kind0 == "tdf" else (b"" if kind0 == "empty" else bytes(rng.randrange(256) for _ in range(rng.choice([3, 16, 64, 700]))))
+                open(p, "wb").write(data0)
+                nodes = [node(1, data0)]
+            cur = kind0
+            script = []
+            for _ in range(rng.randrange(3, 9)):
+                r = rng.random()
+                if r < 0.2 or not objs:
+                    script.append(("construct", len(objs) + 1))
+                    objs[len(objs) + 1] = None
+                elif r < 0.62:
+                    script.append((rng.choice(["enter", "probe"]), rng.choice(list(objs))))
+                else:
+                    script.append((rng.choice(["put-tdf", "put-nontdf", "put-sigonly", "put-empty", "del", "mkdir"]), 0))
+            objs = {}
+            for step, (what, arg) in enumerate(script):
+                exc, extra = None, ""
+                if what == "construct":
+                    try:
+                        objs[arg] = Tdf(p)
+                    except Exception as e:
+                        exc = e
+                    ops.append([Sym("construct"), arg, 1])
+                elif what in ("enter", "probe"):
+                    t = objs.get(arg)
+                    ops.append([Sym("enter"), arg])
+                    if t is None:
+                        obs.append((what, "FileNotFoundError", cur, "never constructed"))
+                        continue
+                    before = read_node(p)
+                    try:
+                        if what == "enter":
+                            with t:
+                                extra = f"{len(t.entries)} entries"
+                        else:
+                            name, fn = rng.choice(readers)
+                            extra = f"{name} -> {str(fn(t))[:40]}"
+                    except Exception as e:
+                        exc = e
+                    if read_node(p) != before:
+                        ctx.fail(f"{what} on a {cur} path changed the file", dict(script=script[:step + 1], start=kind0), ident="open changes file")
+                    h = getattr(t, "handler", None)
+                    if h is not None and not h.closed:
+                        h.close()        # (a leaked handle is C08's subject, and only on well-formed files; not judged here)
+                else:
+                    if os.path.isdir(p):
+                        os.rmdir(p)
+                    elif os.path.exists(p):
+                        os.unlink(p)
+                    if what == "put-tdf":
+                        data, _ = C.start_file(rng, rng.choice(["fresh", "n3", "n5"]))
+                    elif what == "put-nontdf":
+                        data = bytes(rng.randrange(256) for _ in range(rng.choice([1, 16, 90, 5000])))
+                    elif what == "put-sigonly":
+                        data = C.SIG[:rng.choice([8, 15])] + b"\x00" * rng.choice([1, 50])     # a damaged signature
+                    elif what == "put-empty":
+                        data = b""
+                    if what.startswith("put"):
+                        open(p, "wb").write(data)
+                        ops.append([Sym("put"), 1, data])
+                        cur = "tdf" if what == "put-tdf" else "nontdf" if what != "put-empty" else "empty"
+                    elif what == "del":
+                        ops.append([Sym("del"), 1])
+                        cur = "absent"
+                    else:
+                        os.mkdir(p)
+                        ops.append([Sym("mkdir"), 1])
+                        cur = "dir"
+                    obs.append((what, "ok", cur, ""))
+                    continue
+                obs.append((what, classify(exc), cur, extra))
+            cmds.append([Sym("world.run"), nodes, ops])
+            recs.append((kind0, script, obs))
+        finally:
+            shutil.rmtree(d, ignore_errors=True)
+    for (kind0, script, obs), m in zip(recs, common.drv_batch(cmds)):
+        rep = dict(start=kind0, script=script)
+        entered = sum(1 for w, o, _, _ in obs if w in ("enter", "probe") and o == "ok")
+        replaced_then_entered = any(w in ("enter", "probe") for w, *_ in obs[1:]) and any(w.startswith(("put", "del", "mk")) for w, *_ in obs)
+        ctx.case(("long-lived", kind0, str(script)), nontrivial=replaced_then_entered and entered >= 1,
+                 sample=dict(start=kind0, script=[f"{w}:{o}@{c}" for w, o, c, _ in obs]), tags=[f"long-lived:{w}:{c}:{o}" for w, o, c, _ in obs if w in ("enter", "probe", "construct")])
+        for i, ((what, got, cur, extra), mo) in enumerate(zip(obs, m)):
+            rpi = dict(rep, upto=i)
+            if what in ("enter", "probe") and extra != "never constructed":
+                if cur in ("nontdf", "empty", "dir", "absent") and got == "ok":
+                    ctx.fail(f"{what} through a long-lived object on a path that now holds {cur} content yielded data ({extra}) instead of being refused "
+                             f"[after: {[f'{w}:{o}' for w, o, _, _ in obs[:i]]}]", rpi, ident=f"long-lived object: {what} on {cur} accepted")
+                    break
+                if cur == "tdf" and got != "ok":
+                    ctx.fail(f"{what} through a long-lived object on a valid TDF raised {got} [after: {[f'{w}:{o}' for w, o, _, _ in obs[:i]]}]", rpi,
+                             ident="long-lived object: valid TDF refused")
+                    break
+            canon = {"isDir": "invalid"}
+            g, mm = canon.get(got, got), canon.get(str(mo), str(mo))
+            if what == "probe" and g != "ok" and mm != "ok":
+                continue         # HOW a reader's implicit context is refused (which exception) is not part of the property
+            if g != mm:
+                ctx.diff("world.step", f"long-lived scenario step {i} {what} on {cur}: real {got} model {mo}", rpi)
+                break
 
 
 def replay(path):
